@@ -15,8 +15,13 @@ TmplPayloads ==
      << Rep("SA"), Rep("KE"), Rep("NONCE") >>,
      << Rep("V"), Rep("IDr"), Rep("CERTREQ") >>,
      << >> >>
-NT == IF Thorough THEN Len(TmplPayloads) ELSE Len(TmplPayloads)
-Tmpl(i) == PlainMsg(Msg(1, TmplPayloads[i]))
+Unk(ty, body) == [k |-> "UNK", t |-> ty, crit |-> 0, rsv |-> 0, body |-> body]
+WTemplates == << << Unk(200, << 1, 2, 3 >>), Unk(201, << >>), PayloadPlain(Rep("N")) >>,
+                 << PayloadPlain(Rep("NONCE")), Unk(1, D(5, 9)), Unk(32, << 7 >>) >>,
+                 << Unk(255, << >>) >> >>
+NT == Len(TmplPayloads) + Len(WTemplates)
+Tmpl(i) == IF i <= Len(TmplPayloads) THEN PlainMsg(Msg(1, TmplPayloads[i]))
+           ELSE [PlainMsg(Msg(1, << >>)) EXCEPT !.payloads = WTemplates[i - Len(TmplPayloads)]]
 
 Deltas == (0 - Window)..Window
 Quick8 == {0, 1, 2, 3, 4, 5, 7, 8, 9, 127, 128, 129, 243, 244, 245, 246, 247, 248, 249, 250, 251, 252, 253, 254, 255}
@@ -49,7 +54,7 @@ Mutant == LET b0 == EncMsgW(Tmpl(t)) IN
 
 BodyStep(b) ==
   LET ps == Tmpl(t).payloads IN
-  IF Len(ps) = 1 /\ Len(b) >= 32
+  IF Len(ps) = 1 /\ Len(b) >= 32 /\ ps[1].k # "UNK"
     THEN LET k == ps[1].k body == From(b, 33) IN
          << Step("decode_body", "C04", FALSE, [kind |-> k, wire |-> body, caps |-> TRUE], [panic |-> FALSE, capdiff |-> FALSE]) >>
          \o (IF k = "EAP" THEN << Step("eap_decode", "C04", FALSE, [wire |-> body, caps |-> TRUE], ExpectEapDecode(body)) >> ELSE << >>)
@@ -58,5 +63,5 @@ BodyStep(b) ==
 Emit == stage = 3 => LET b == Mutant cv == CursorVector(b, s.nm) IN
                      PrintT(ToJson([cv EXCEPT !.steps = @ \o BodyStep(b)]))
 \* the untouched template is canonical and classified as a value: the templates themselves are sound
-Sound == stage = 1 => LET b == EncMsgW(Tmpl(t)) IN Canonical(b) /\ Classify(b).class = "value"
+Sound == stage = 1 => LET b == EncMsgW(Tmpl(t)) IN (t <= Len(TmplPayloads) => Canonical(b)) /\ Classify(b).class = "value"
 =============================================================================
